@@ -1577,6 +1577,10 @@ def replay_one(ctx, stats, path):
             run_sim(ctx, stats, "replay", [job], "stored")
         else:
             run_live(ctx, stats, "replay", [job], "stored", nbatch=1)
+    elif "bigcpu" in rep:
+        bad, _ = bigcpu_run([rep["bigcpu"]] if "kind" in rep["bigcpu"] else bigcpu_cases(ctx.seed, False))
+        for sig, text, c in bad:
+            ctx.disagree("conf:" + sig, text, {"bigcpu": c})
     elif "trace" in rep:
         tr = rep["trace"]
         judge(ctx, stats, "replay-trace", [tr], tr["np"], bool(tr.get("capped", tr["target"] == "sim")))
@@ -1733,6 +1737,115 @@ def _check(ctx):
     ctx.cov["classes_exercised"] = {t: len(v) for t, v in stats.tags.items()}
     ctx.cov["steps_by_target"] = stats.steps
     ctx.cov["not_runnable_on_live"] = stats.skipped
+    check_bigcpu(ctx, thorough)
+    mark("bigcpu")
+
+
+# ---------------------------------------------------------------------------
+# the real extension on a machine with 256 possible CPUs
+# ---------------------------------------------------------------------------
+
+BIG = [0, 3, 63, 64, 70, 127, 128, 130, 255]
+
+
+def bigcpu_cases(seed, thorough):
+    import itertools
+    rnd = random.Random(seed)
+    sets = [list(c) for r in (1, 2, 3) for c in itertools.combinations(BIG, r)]
+    sets += [list(range(256)), list(range(64)), list(range(64, 128)), list(range(1, 256, 2)), [64, 64, 3, 64], BIG]
+    for _ in range(300 if thorough else 60):
+        sets.append(rnd.sample(range(256), rnd.randint(1, 40)))
+    cases = [{"kind": "set", "cpus": s} for s in sets]
+    cases += [{"kind": "kset", "cpus": sorted(set(s))} for s in sets[::3]]
+    cases += [{"kind": "invalid", "cpus": s} for s in ([256], [300, 1023], [256, 257, 1000])]
+    rnd.shuffle(cases)
+    return cases
+
+
+def bigcpu_run(cases):
+    """Returns (disagreements [(sig, text, case)], #calls) | raises Machinery."""
+    import subprocess
+    import tempfile
+    src = os.path.join(core.VERIF, "harness", "bigcpu_shim.c")
+    d = tempfile.mkdtemp(prefix="c18-shim-")
+    wk = kid = None
+    bad, ncalls = [], 0
+    try:
+        so = os.path.join(d, "bigcpu_shim.so")
+        r = subprocess.run(["gcc", "-shared", "-fPIC", "-O1", "-o", so, src], stdout=subprocess.PIPE, stderr=subprocess.STDOUT)
+        if r.returncode:
+            raise core.Machinery("cannot build the 256-CPU shim: %s" % r.stdout.decode()[-500:])
+        wk = live_c18.Worker(preload=so)
+        kid = live_c18.Child()
+        for key, pid in (("self", wk.info["pid"]), ("kid", kid.pid)):
+            if wk.req({"c": "new", "k": key, "pid": pid}).get("r") != "ok":
+                raise core.Machinery("bigcpu: psutil.Process(%d) failed" % pid)
+        first = wk.req({"c": "kaff", "pid": kid.pid})
+        if first.get("v") != list(range(256)):
+            raise core.Machinery("the 256-CPU shim is not in effect: %r" % (first,))
+        other = {"self": "kid", "kid": "self"}
+        pids = {"self": wk.info["pid"], "kid": kid.pid}
+        for i, c in enumerate(cases):
+            key = ("self", "kid")[i % 2]
+            pid = pids[key]
+            want = sorted(set(c["cpus"]))
+            before = wk.req({"c": "kaff", "pid": pid})["v"]
+            obefore = wk.req({"c": "kaff", "pid": pids[other[key]]})["v"]
+            if c["kind"] == "kset":
+                wk.req({"c": "kaff", "pid": pid, "set": want})
+                res = {"r": "ok"}
+            else:
+                res = wk.calls([{"k": key, "op": "cpu_affinity", "a": [c["cpus"]]}])[0]
+            got = wk.calls([{"k": key, "op": "cpu_affinity", "a": []}])[0]
+            kern = wk.req({"c": "kaff", "pid": pid})["v"]
+            oafter = wk.req({"c": "kaff", "pid": pids[other[key]]})["v"]
+            ncalls += 2
+            what = "cpu_affinity(%r) on a 256-CPU machine" % (c["cpus"],)
+            if got.get("r") != "ok" or got.get("v") != kern:
+                bad.append(("bigcpu:get-vs-kernel", "%s: the get form -> %r, the kernel reports %r" % (what, got.get("v", got), kern), c))
+            if c["kind"] == "invalid":
+                if res.get("r") != "ValueError":
+                    bad.append(("bigcpu:invalid:not-ValueError", "%s -> %r, expected ValueError" % (what, res), c))
+                if kern != before:
+                    bad.append(("bigcpu:invalid:changed", "%s changed the mask from %r to %r" % (what, before, kern), c))
+            elif c["kind"] == "set":
+                if res.get("r") != "ok":
+                    bad.append(("bigcpu:set:refused", "%s -> %r" % (what, res), c))
+                elif kern != want:
+                    bad.append(("bigcpu:set:kernel-state", "%s: the kernel now reports %r" % (what, kern), c))
+            if oafter != obefore:
+                bad.append(("bigcpu:other-process", "%s changed the other process's mask %r -> %r" % (what, obefore, oafter), c))
+        wk.close()
+        wk = None
+    except live_c18.SanitizerReport as ex:
+        bad.append(("bigcpu:crash", str(ex)[-1500:], {"cases": len(cases)}))
+        wk = None
+    finally:
+        if wk is not None:
+            try:
+                wk.close()
+            except live_c18.SanitizerReport:
+                pass
+        if kid is not None:
+            kid.kill()
+        shutil.rmtree(d, ignore_errors=True)
+    return bad, ncalls
+
+
+def check_bigcpu(ctx, thorough):
+    """SetThenGet / GetReadsKernel / InvalidChangesNothing / OthersUnchanged of Settings.tla for CPU
+    numbers beyond the first word of the mask: the real extension behind an LD_PRELOAD shim that
+    answers the affinity system calls as a 256-CPU kernel does (EINVAL for a short buffer)."""
+    if not shutil.which("gcc"):
+        ctx.notes.append("bigcpu: no C compiler, stage skipped")
+        return
+    cases = bigcpu_cases(ctx.seed, thorough)
+    bad, ncalls = bigcpu_run(cases)
+    for c in cases:
+        ctx.case(("bigcpu", c["kind"], tuple(c["cpus"])))
+    ctx.cov["bigcpu"] = {"cases": len(cases), "public_calls": ncalls, "possible_cpus": 256}
+    for sig, text, c in bad:
+        ctx.disagree("conf:" + sig, text, {"bigcpu": c})
 
 
 def main(prop, argv):
